@@ -1,23 +1,31 @@
 """C11  Four-counter distributed termination is safe and live.
 
 spec/Termdet/FourCounter.tla       the protocol of termdet_fourcounter_module.c (states, counters, accumulators, UP/DOWN
-                                   waves over FIFO channels, delayed messages, root decision) with its environment
-spec/Termdet/FourCounterSim.tla    the same next-state relation with a history variable (TLC -simulate behaviours)
+                                   waves over FIFO channels, delayed messages, root decision) with its environment;
+                                   `variant` weakens one clause of the module at a time (sensitivity / directed behaviours)
+spec/Termdet/FourCounterSim.tla    the same next-state relation with a history variable (TLC -simulate behaviours, and the
+                                   shortest unsafe / stranded behaviour of every weakened variant)
 spec/Termdet/FourCounterTrace.tla  property-level validation of what the real module did on N virtual ranks
 
-1. TLC, exhaustive: N = 2, 3 (thorough: 4) processes, <= 2 application messages, <= 2 spawned tasks, every interleaving
-   of workload changes, message sends / receives and control-message deliveries: safety (Safe, CbOnce, none of the
-   module's asserts) and liveness (AllTerm, Agreement) under per-action weak fairness.  Sensitivity self-test: the root
-   decision without the last_acc_* equality must violate Safe.
-2. Environment replay: TLC -simulate behaviours (quick >= 300, thorough >= 2000; N = 2..4, 5 in thorough) are played
-   into N virtual ranks of the real module (harness/fourcounter/fc_replay.c); after each behaviour the harness makes
-   the system quiet and delivers control messages fairly, bounded.  Per step the real taskpool_state / callback counts
-   are compared with the model's prediction (divergences).
-3. Verdict by TLC (FourCounterTrace): a termination callback is accepted only while every process is idle and no
+1. TLC, exhaustive: N = 2, 3 (thorough: 1..4) processes, <= 2 application messages, <= 2 spawned tasks, every interleaving
+   of workload changes, message sends / receives (a reception may release tasks piecewise and may complete with a
+   flying-message action or with a released task) and control-message deliveries: safety (Safe, CbOnce, none of the
+   module's asserts, NoStrand) and liveness (AllTerm, Agreement) under per-action weak fairness.
+2. Transition coverage on the real module: the complete state graphs for N = 2 and N = 3 (TLC -dump) are handed to
+   harness/fourcounter/fc_replay.c, which executes EVERY transition of the graph on N virtual ranks of the real module
+   from the state reached by the shortest path, compares the observable state of the real ranks (taskpool_state,
+   callbacks, nb_tasks / nb_pending_actions, every queued control message with its payload, parked messages) with the
+   target state of the model, then drives the system to quiescence and requires every rank to terminate exactly once.
+3. Directed behaviours: for each weakened variant of the model (a conjunct of the root decision, a branch of
+   check_state_workload_changed / check_state_message_received, a disjunct of the addto_* slow-path tests, ... dropped) TLC
+   produces the shortest behaviour that ends unsafe or stranded; each one is replayed on the real code in every run.
+4. Environment replay of TLC -simulate behaviours for N = 4 (thorough: 2..5).
+5. Verdict by TLC (FourCounterTrace): a termination callback is accepted only while every process is idle and no
    application message is in transit; at the end every process must have declared termination exactly once.
 """
 import json
 import os
+import re
 
 from lib import mcgen, tlc, tracecheck
 
@@ -25,29 +33,179 @@ META = {
     "level": "model_checking",
     "text": "TLC checks the four-counter wave protocol (as coded: states, counters, accumulators, delayed messages, root "
             "decision on two equal consecutive waves) exhaustively for 2-3 processes (4 in thorough) for safety and, under "
-            "per-action weak fairness, liveness; TLC-generated behaviours are then played as the environment of N virtual "
-            "ranks of the real module (real taskpool_ready/addto_*/outgoing/incoming_message_*/msg_dispatch, recorded "
-            "send_am) and TLC validates each recorded execution: no termination callback while a process has work or an "
-            "application message is unreceived, and every process terminates once the system is quiet.",
-    "note": "Model bounds: <= 2 application messages, <= 2 spawned tasks, FIFO control channels.  Liveness on the real code "
-            "is bounded (fair round-robin delivery, <= 80 N + 40 deliveries after quiescence).  One harness thread: the "
-            "intra-process races of the module (atomic counters outside the rwlock) are not explored.  Asserts compiled out. "
-            "Real dynamic-termdet MPI programs are not run here.  Trusted: TLC, the virtual-rank harness.",
-    "technique": "TLA+ protocol model (TLC safety + liveness) + environment replay of TLC behaviours on virtual ranks + "
-                 "trace validation (TLC)",
+            "per-action weak fairness, liveness.  Every transition of the complete 2- and 3-process state graphs is then "
+            "executed on N virtual ranks of the real module (real taskpool_ready/addto_*/outgoing/incoming_message_*/"
+            "msg_dispatch, recorded send_am) from the state reached by the shortest path, with the observable state of the "
+            "real ranks compared to the model after every step, followed by a drive to quiescence; the shortest unsafe / "
+            "stranded behaviours of 15 weakened variants of the model and simulated 4-process behaviours are replayed too.  "
+            "TLC validates the recorded executions: no termination callback while a process has work or an application "
+            "message is unreceived, and every process terminates exactly once when the system is quiet.",
+    "note": "Model bounds: <= 2 application messages, <= 2 spawned tasks, FIFO control channels.  Transition coverage: all "
+            "transitions of the N = 2 and N = 3 graphs are executed and compared in the harness; trace validation by TLC "
+            "covers every execution the harness flags (state mismatch, callback in a non-quiet system, not terminated at the "
+            "end; capped at 2 x 150 per graph) plus a seeded sample (~500) of the others plus all directed and simulated "
+            "behaviours - for the unsampled rest the (equally simple) oracle inside the harness is trusted.  The harness "
+            "restores the saved state of the virtual ranks (monitor bytes, counters, channels) instead of re-executing the "
+            "deterministic prefix of each transition.  Liveness on the real code is bounded (fair round-robin delivery, "
+            "<= 80 N + 40 deliveries after quiescence).  One harness thread: the intra-process races of the module (atomic "
+            "counters outside the rwlock) are not explored.  Asserts compiled out.  Real dynamic-termdet MPI programs are "
+            "not run here.  Trusted: TLC, the virtual-rank harness.",
+    "technique": "TLA+ protocol model (TLC safety + liveness) + transition coverage of the model's state graph on virtual "
+                 "ranks of the real module + directed behaviours from weakened models + trace validation (TLC)",
 }
 
-ACTIONS = ("TaskpoolReady", "Spawn", "TaskDone", "ActionDone", "SendApp", "RecvStart", "RecvEnd", "MsgUp", "MsgDown", "MsgDelay")
+ACTIONS = ("TaskpoolReady", "Spawn", "TaskDone", "ActionDone", "SendApp", "RecvStart", "RecvEnd", "RecvEndTask", "MsgUp",
+           "MsgDown", "MsgDelay")
 STATE_CODE = {"NR": 1, "BWC": 2, "BWP": 2, "IWC": 3, "IWP": 3, "TERM": 4}     # parsec_termdet_taskpool_state_t
 JVM_ENV = {"JAVA_TOOL_OPTIONS": "-Xss16m"}
+INVS = ("TypeOK", "Safe", "Sticky", "CbOnce", "NoAssert", "BusyShown", "NoStrand")
+# weakened variants of the model: expected kind of the shortest bad behaviour (sensitivity self-test) -----------------------------
+VARIANTS_N2 = {"nolast": "unsafe", "nolastR": "unsafe", "noeq": "unsafe", "su_noleft": "strand", "wc_noBWP": "strand",
+               "wc_noBWC": "strand", "wc_noIWC": "strand", "wc_noIWP": "strand", "wc_nosend": "strand", "nt_nozero": "strand",
+               "nt_noret": "strand", "pa_nozero": "strand", "pa_noret": "strand", "up_nocheck": "strand",
+               "down_nocheck": "strand"}
+VARIANTS_N3 = {"mr_noleft": "unsafe"}                                         # thorough
+# harness op codes (fc_replay.c) ----------------------------------------------------------------------------------------------------
+OPS = {"TaskpoolReady": 0, "Spawn": 1, "TaskDone": 2, "ActionDone": 3, "SendApp": 4, "RecvStart": 5, "RecvEnd": 6,
+       "RecvEndTask": 7, "MsgUp": 8, "MsgDown": 9, "MsgDelay": 10}
+OP_NAMES = ["Ready", "Spawn", "TaskDone", "ActionDone", "SendApp", "RecvStart", "RecvEnd", "RecvEndTask", "MsgUp", "MsgDown",
+            "MsgDelay"]
+MAX_FLAGGED = 150
 
 
-def consts(n, variant="code", msgs=2, spawn=2):
-    return {"N": n, "MaxMsgs": msgs, "MaxSpawn": spawn, "Variant": variant}
+def consts(n, variants=("code",), msgs=2, spawn=2):
+    return {"N": n, "MaxMsgs": msgs, "MaxSpawn": spawn, "Variants": set(variants)}
 
 
 def to_line(n, h):
     return "%d;" % n + ";".join("%s %d %d" % (s["a"], s["r"], s["q"]) for s in h)
+
+
+# ---- state graph: TLC -dump dot -> compact text for the harness ---------------------------------------------------------------------
+_RE_LABEL = re.compile(r'^(\w+)\((\d+)(?:, ?(\d+))?\)$')
+_RE_PAIR = re.compile(r'<<(\d+), (\d+)>> :> ')
+_RE_REC = re.compile(r'\[([^\]]*)\]')
+_RE_FLD = re.compile(r'(\w+) \|-> (\\"\w+\\"|\w+)')
+_RE_INTS = re.compile(r':> (-?\d+)')
+_RE_STR = re.compile(r':> \\"(\w+)\\"')
+_RE_SEQ = re.compile(r':> <<(.*?)>>(?= @@|\s*\))')
+
+
+def _var(lab, name):
+    """raw text of variable `name` in a dot state label (/\\ a = ...\\n/\\ b = ...)."""
+    key = "/\\\\ %s = " % name
+    i = lab.find(key)
+    if i < 0:
+        raise tlc.TLCError("state label without variable %s: %s" % (name, lab[:200]))
+    i += len(key)
+    j = lab.find("\\n/\\\\ ", i)
+    return lab[i:] if j < 0 else lab[i:j]
+
+
+def obs_of_label(lab):
+    """Observable state of a model state, in the text format of real_obs() in fc_replay.c:
+       states|callbacks|nb_tasks|nb_pending_actions|in flight|being received|parked|p>q:U<s>.<r>,D<res>;..."""
+    ints = lambda k: ",".join(_RE_INTS.findall(_var(lab, k)))
+    st = ",".join(str(STATE_CODE[x]) for x in _RE_STR.findall(_var(lab, "st")))
+    dv = _var(lab, "delayed")
+    dl = ",".join(str(x.count("[")) for x in _RE_SEQ.findall(dv)) if "[" in dv else ",".join("0" for _ in _RE_SEQ.findall(dv))
+    ch = ""
+    ctl = _var(lab, "ctl")
+    if "[" in ctl:
+        ps = list(_RE_PAIR.finditer(ctl))
+        for i, m in enumerate(ps):
+            seg = ctl[m.end():ps[i + 1].start() if i + 1 < len(ps) else len(ctl)]
+            if "[" not in seg:
+                continue
+            items = []
+            for rec in _RE_REC.findall(seg):
+                f = dict(_RE_FLD.findall(rec))
+                items.append("U%s.%s" % (f["s"], f["r"]) if "UP" in f["t"] else "D%d" % (1 if f["res"] == "TRUE" else 0))
+            ch += "%s>%s:%s;" % (m.group(1), m.group(2), ",".join(items))
+    return "|".join((st, ints("cb"), ints("tasks"), ints("pa"), ints("flight"), ints("started"), dl, ch))
+
+
+def load_dot(path):
+    """Streaming parser of TLC's dot dump (the generic lib/tlc.dump_graph is too slow for 150 MB).
+       Returns (observable state by node index, edges [(src, dst, op, a, b)] sorted by src, index of the initial state)."""
+    ids, obs, raw, init = {}, [], [], None
+    with open(path, encoding="latin-1") as f:
+        for line in f:
+            if line[-3:-1] == "];":
+                p = line.split(" ", 3)
+                if len(p) == 4 and p[1] == "->":                     # <src> -> <dst> [label="Op(a,b)",color=...];
+                    raw.append((p[0], p[2], p[3][8:p[3].index('"', 8)]))
+                    continue
+            i = line.find(' [label="')
+            if i <= 0:
+                continue
+            nid = line[:i]
+            j = line.find('",tooltip="', i)
+            if j < 0:
+                j = line.find('",style = filled]', i)
+                if j >= 0:
+                    init = nid
+                else:
+                    j = line.rfind('"]')
+            if nid not in ids:
+                ids[nid] = len(obs)
+                obs.append(obs_of_label(line[i + 9:j]))
+    if init is None or not raw:
+        raise tlc.TLCError("state graph dump %s has no initial state / no edge" % path)
+    edges = []
+    for a, b, lab in raw:
+        m = _RE_LABEL.match(lab)
+        if not m or m.group(1) not in OPS or a not in ids or b not in ids:
+            raise tlc.TLCError("unexpected edge in the state graph dump: %r" % ((a, b, lab),))
+        edges.append((ids[a], ids[b], OPS[m.group(1)], int(m.group(2)), int(m.group(3)) if m.group(3) is not None else -1))
+    edges.sort(key=lambda e: e[0])               # stable: the harness (counting sort by source) keeps exactly this order
+    return obs, edges, ids[init]
+
+
+def check_and_dump(ctx, d, n, cover):
+    """One TLC run: exhaustive safety + liveness (+ per-action coverage) AND the dump of the complete state graph."""
+    mod, cfg = mcgen.write_mc(d, "fc%d" % n, "FourCounter", consts(n), spec="FairSpec", invariants=INVS,
+                              properties=("AllTerm", "Agreement"))
+    dot = os.path.join(ctx.scratch, "fc%d-graph" % n)
+    r = tlc.run(d, mod, cfg, workers=2 if n >= 3 else 1, timeout=3000, heap="6g", coverage=bool(cover),
+                args=["-dump", "dot,actionlabels", dot])
+    ctx.states += r.distinct
+    ctx.transitions += r.generated
+    ctx.models.append({"module": mod, "cfg": cfg, "distinct": r.distinct, "generated": r.generated, "depth": r.depth,
+                       "wall_s": round(r.wall, 1), "graph": True,
+                       "coverage": {k: v[0] for k, v in r.coverage.items()} if r.coverage else None})
+    if not r.ok:
+        raise tlc.TLCError("specification FourCounter (N = %d) does not satisfy its own properties (%s); this is a model "
+                           "failure, not a verdict about the code\n%s" % (n, r.violated, r.out[-2500:]))
+    for a in cover:
+        if r.coverage.get(a, (0, 0))[1] == 0:
+            raise tlc.TLCError("vacuity guard: action %s of FourCounter never taken for N = %d" % (a, n))
+    obs, edges, init = load_dot(dot + ".dot")
+    os.unlink(dot + ".dot")
+    if len(obs) != r.distinct:
+        raise tlc.TLCError("state graph dump has %d nodes, TLC found %d distinct states" % (len(obs), r.distinct))
+    return obs, edges, init
+
+
+def directed_behaviours(ctx, d, n, expected, msgs=2, spawn=2):
+    """Shortest unsafe / stranded behaviour of each weakened variant, all variants in ONE breadth-first TLC run."""
+    c = consts(n, expected.keys(), msgs, spawn)
+    c["MaxLen"] = 40
+    mod, cfg = mcgen.write_mc(d, "fc_variants%d" % n, "FourCounterSim", c, spec="SimSpec", invariants=("EmitBad", "AllServed"),
+                              constraints=("Unserved",), view="vars", extra_defs="ASSUME TLCSet(1, {})")
+    r = ctx.tlc_check(d, mod, cfg, expect_ok=False, workers=1, timeout=3000, heap="6g")
+    got = {}
+    for l in r.printed:
+        o = tlc._parse_tla_string_list(l)
+        if o and o.get("variant") not in got:
+            got[o["variant"]] = o
+    for v, kind in expected.items():
+        if v not in got or got[v]["kind"] != kind or not got[v]["hist"]:
+            raise tlc.TLCError("sensitivity self-test: the weakened variant %s of the model must have a %s behaviour for N = %d, "
+                               "got %r" % (v, kind, n, got.get(v, {}).get("kind")))
+    if r.violated != "AllServed":
+        raise tlc.TLCError("directed behaviours: TLC stopped with %r instead of AllServed" % r.violated)
+    return [(n, got[v]["hist"], v, got[v]["kind"]) for v in sorted(expected)]
 
 
 def replay_behaviours(ctx, exe, items, tag):
@@ -59,12 +217,47 @@ def replay_behaviours(ctx, exe, items, tag):
     tr = os.path.join(ctx.scratch, "fc-%s.ndjson" % tag)
     mt = os.path.join(ctx.scratch, "fc-%s.meta" % tag)
     rc, out, err = ctx.run_cmd([exe, bf, tr, mt], timeout=900)
+    if rc == 3:
+        raise tlc.TLCError("fc_replay: input error (%s)" % err[-300:])
     exs = tracecheck.split_executions(tracecheck.read_ndjson(tr)) if os.path.exists(tr) else []
     metas = [json.loads(l) for l in open(mt) if l.strip().endswith("}")] if os.path.exists(mt) else []
     if rc != 0 or len(exs) != len(items):
         k = max(min(len(exs), len(items)) - 1, 0)
         exs = exs[:k] + [[{"e": "Crash", "rc": str(rc), "behaviour": to_line(*items[k]), "stderr": err[-300:]}]]
     return exs, metas
+
+
+def replay_graph(ctx, exe, n, labels, edges, init, sample):
+    """Transition coverage of one state graph on the real module.  Returns (executions, replay lines, summary)."""
+    gf = os.path.join(ctx.scratch, "fc-graph%d.txt" % n)
+    with open(gf, "w") as f:
+        f.write("G %d %d %d %d\n" % (n, len(labels), len(edges), init))
+        f.write("".join("n %s\n" % o for o in labels))
+        f.write("".join("e %d %d %d %d %d\n" % e for e in edges))
+    tr = os.path.join(ctx.scratch, "fc-graph%d.ndjson" % n)
+    mt = os.path.join(ctx.scratch, "fc-graph%d.meta" % n)
+    rc, out, err = ctx.run_cmd([exe, "-g", gf, tr, mt, str(ctx.seed), str(sample), str(MAX_FLAGGED)], timeout=1800)
+    if rc == 3:
+        raise tlc.TLCError("fc_replay -g: input error (%s)" % err[-300:])
+    exs = tracecheck.split_executions(tracecheck.read_ndjson(tr)) if os.path.exists(tr) and os.path.getsize(tr) else []
+    allm = [json.loads(l) for l in open(mt) if l.strip().endswith("}")] if os.path.exists(mt) else []
+    summary = allm.pop() if allm and allm[-1].get("summary") else None
+    metas = [m for m in allm if m.get("edge", -1) >= 0]                    # one per written execution, in order
+    root_mismatch = [m for m in allm if m.get("edge", -1) < 0]             # (the initial state itself differs)
+    lines = ["%d;" % n + ";".join("%s %d %d" % (OP_NAMES[edges[e][2]], edges[e][3], edges[e][4]) for e in m["path"]) for m in metas]
+    if rc != 0 or summary is None or len(exs) != len(metas):
+        # the real code died (or hung) in the middle of the walk: a crash of the real code in a legal scenario
+        k = min(len(exs), len(metas))
+        exs, metas, lines = exs[:k], metas[:k], lines[:k]
+        exs.append([{"e": "Crash", "rc": str(rc), "graph": n, "stderr": err[-300:]}])
+        metas.append({"edge": -1, "crash": True})
+        lines.append(None)
+        summary = summary or {"crash": True, "mismatch": 0, "illegal": 0, "badexec": 0, "executed_edges": 0,
+                              "nodes": len(labels), "edges": len(edges)}
+    if root_mismatch:
+        summary["root_mismatch"] = root_mismatch[0]
+    os.unlink(gf)
+    return exs, lines, metas, summary
 
 
 def rejected_once(ctx, sub, module, cfg, events, env=None):
@@ -81,31 +274,28 @@ def rejected_once(ctx, sub, module, cfg, events, env=None):
 def run(ctx):
     d = ctx.stage("Termdet")
     exe = ctx.harness("fc_replay", ["harness/fourcounter/fc_replay.c"])
-    invs = ("TypeOK", "Safe", "Sticky", "CbOnce", "NoAssert")
 
-    # ---- 1. the protocol model: safety + liveness, exhaustive -------------------------------------------------------------
+    # ---- 1. the protocol model: safety + liveness, exhaustive; the complete state graphs for N = 2, 3 --------------------------------
+    graphs = {}
     for n in ((2, 3) if ctx.quick else (1, 2, 3, 4)):
-        mod, cfg = mcgen.write_mc(d, "fc%d" % n, "FourCounter", consts(n), spec="FairSpec", invariants=invs,
-                                  properties=("AllTerm", "Agreement"))
-        cover = ACTIONS if n >= 3 else ()
-        ctx.tlc_check(d, mod, cfg, must_cover=cover, workers=2, timeout=3000, heap="6g")
+        if n in (2, 3):
+            graphs[n] = check_and_dump(ctx, d, n, ACTIONS if n == 3 else ())
+        else:
+            mod, cfg = mcgen.write_mc(d, "fc%d" % n, "FourCounter", consts(n), spec="FairSpec", invariants=INVS,
+                                      properties=("AllTerm", "Agreement"))
+            ctx.tlc_check(d, mod, cfg, workers=2, timeout=3000, heap="6g")
     ctx.exhaustive = True
-    # sensitivity self-test: with a root decision that ignores the last_acc_* equality the model must violate Safe; the
-    # shortest unsafe behaviour TLC finds is kept as a DIRECTED behaviour for the replay on the real code
-    c = consts(2, "nolast")
-    c["MaxLen"] = 60
-    mod, cfg = mcgen.write_mc(d, "fc_nolast", "FourCounterSim", c, spec="SimSpec", invariants=("EmitUnsafe", "Safe"), view="vars")
-    r = ctx.tlc_check(d, mod, cfg, expect_ok=False, workers=1)
-    if r.violated != "Safe":
-        raise tlc.TLCError("sensitivity self-test: a root decision without the last_acc_* equality must violate Safe, got %r" % r.violated)
-    directed = [(2, h) for h in (tlc._parse_tla_string_list(l) for l in r.printed) if h]
-    if not directed:
-        raise tlc.TLCError("sensitivity self-test: no unsafe behaviour was printed")
-    directed = directed[:1]
 
-    # ---- 2. behaviours -> environment replay on the real module ----------------------------------------------------------------
-    plan = [(3, 260, 40), (4, 160, 48)] if ctx.quick else [(2, 400, 32), (3, 1200, 44), (4, 900, 56), (5, 300, 64)]
-    items = list(directed)
+    # ---- 2. directed behaviours: the shortest unsafe / stranded behaviour of every weakened variant of the model ----------------------
+    # (also the sensitivity self-test of the model: each weakening must be noticed by Safe / NoStrand)
+    directed = directed_behaviours(ctx, d, 2, VARIANTS_N2)
+    if not ctx.quick:
+        directed += directed_behaviours(ctx, d, 3, VARIANTS_N3)
+    ctx.extra["directed_variants"] = {v: "%s after %d steps (N = %d)" % (k, len(h), n) for n, h, v, k in directed}
+
+    # ---- 3. behaviours -> environment replay on the real module ---------------------------------------------------------------------
+    plan = [(4, 160, 48)] if ctx.quick else [(2, 400, 32), (3, 1200, 44), (4, 900, 56), (5, 300, 64)]
+    items = [(n, h) for n, h, _, _ in directed]
     for n, num, depth in plan:
         c = consts(n)
         c["MaxLen"] = depth
@@ -115,10 +305,10 @@ def run(ctx):
     items.append((1, [{"a": "Ready", "r": 0, "q": -1, "st": ["BWC"], "cb": [0]}, {"a": "ActionDone", "r": 0, "q": -1, "st": ["TERM"], "cb": [1]}]))
     ctx.extra["behaviours"] = len(items)
     exs, metas = replay_behaviours(ctx, exe, items, "sim")
-    ctx.evaluations = len(exs)
+    lines = [to_line(n, h) for n, h in items]
     for i, ((n, h), m) in enumerate(zip(items, metas)):
         if i < len(directed):
-            continue          # predicted by the weakened model on purpose: judged by the trace specification only
+            continue          # predicted by a weakened model on purpose: judged by the trace specification only
         want = [[STATE_CODE[x] for x in s["st"]] + list(s["cb"]) for s in h]
         ok = (m.get("diverged") == 0 and m.get("obs") == want and m.get("fin") and
               m["fin"][-1] == [4] * n + [1] * n)
@@ -129,18 +319,52 @@ def run(ctx):
                                        "model": want[k] if k is not None else None,
                                        "real": m["obs"][k] if k is not None else m.get("fin")}}, limit=6)
     if exs:
-        ctx.sample({"directed_behaviour": to_line(*items[0]), "events": exs[0]})
-        ctx.sample({"behaviour": to_line(*items[-2]), "events": exs[-2], "control_messages": metas[-2].get("ctl") if len(metas) > 1 else None})
+        ctx.sample({"directed_behaviour": "%s: %s" % (directed[0][2], lines[0]), "events": exs[0]})
+        ctx.sample({"behaviour": lines[-2], "events": exs[-2], "control_messages": metas[-2].get("ctl") if len(metas) > 1 else None})
 
-    # ---- 3. verdict ---------------------------------------------------------------------------------------------------------------------
-    fails = ctx.validate("Termdet", "FourCounterTrace", "FourCounterTrace.cfg", exs, batch=3000, env=JVM_ENV, timeout=1500)
+    # ---- 4. transition coverage: every transition of the N = 2 and N = 3 graphs on the real module -------------------------------------
+    cov = {}
+    for n in sorted(graphs):
+        labels, edges, init = graphs[n]
+        target = 110 if n == 2 else (420 if ctx.quick else 4000)              # executions sampled for TLC besides the flagged ones
+        gx, gl, gm, summ = replay_graph(ctx, exe, n, labels, edges, init, max(1, int(100000.0 * target / max(1, len(edges)))))
+        cov["N=%d" % n] = {k: summ.get(k) for k in ("nodes", "edges", "visited_nodes", "executed_edges", "mismatch", "illegal",
+                                                    "badexec", "emitted", "capped")}
+        ndiv = (summ.get("mismatch") or 0) + (summ.get("illegal") or 0) + (1 if summ.get("root_mismatch") else 0)
+        ctx.divergences += ndiv
+        if not summ.get("crash") and summ.get("executed_edges") != len(edges) and not ndiv:
+            raise tlc.TLCError("transition coverage N = %d: %r edges executed of %d without any divergence" %
+                               (n, summ.get("executed_edges"), len(edges)))
+        for m, line in zip(gm, gl):
+            if m.get("mismatch") or m.get("illegal"):
+                ctx.sample({"divergence": {"behaviour": line, "model_state_after_last_step": m.get("model"),
+                                           "real_state_after_last_step": m.get("real"), "illegal_in_real_environment": m.get("illegal"),
+                                           "termination_in_non_quiet_system": m.get("badterm"), "not_terminated": m.get("stuck")}},
+                           limit=6)
+        exs.extend(gx)
+        lines.extend(gl)
+        graphs[n] = None
+    ctx.extra["transition_coverage"] = cov
+    ctx.evaluations = len(items) + sum((c.get("executed_edges") or 0) for c in cov.values())
+
+    # ---- 5. verdict ---------------------------------------------------------------------------------------------------------------------
+    seen, uex, uline = set(), [], []
+    for e, l in zip(exs, lines):
+        k = json.dumps(e, sort_keys=True)
+        if k not in seen:
+            seen.add(k)
+            uex.append(e)
+            uline.append(l)
+    ctx.extra["executions_recorded"] = len(exs)
+    ctx.extra["executions_distinct"] = len(uex)
+    fails = ctx.validate("Termdet", "FourCounterTrace", "FourCounterTrace.cfg", uex, batch=3000, env=JVM_ENV, timeout=1500)
     for f in fails:
         i = f.index
         ctx.violation("four-counter termination: termination declared while a process had work / a message was unreceived, or "
                       "not declared after quiescence: %s" % json.dumps(f.describe())[:1200],
-                      {"line": to_line(*items[i]) if i < len(items) else None, "events": f.execution})
+                      {"line": uline[i] if i < len(uline) else None, "events": f.execution})
     # ---- binding self-test: an application message that is never received must make the next `term` unacceptable ------------------
-    cand = [e for e in exs if any(ev.get("e") == "recvend" for ev in e) and e[-1].get("e") == "end"]
+    cand = [e for e in uex if any(ev.get("e") == "recvend" for ev in e) and e[-1].get("e") == "end"]
     if cand and not ctx.violations:
         ex = list(cand[0])
         k = max(j for j, ev in enumerate(ex) if ev.get("e") == "recvend")
@@ -148,7 +372,10 @@ def run(ctx):
             raise tlc.TLCError("binding self-test: a trace without the last recvend was accepted by FourCounterTrace")
     ctx.assume("taskpool_ready is called while the process holds a pending action (runtime start-up action)")
     ctx.assume("control channels are FIFO per (source, destination); application messages may be delayed arbitrarily")
-    ctx.assume("a receive is incoming_message_start, later addto_runtime_actions(+1) + incoming_message_end (remote_dep_release_incoming)")
+    ctx.assume("a receive is incoming_message_start, later zero or more addto_nb_tasks(+1) (release_deps of the pieces that "
+               "arrived), and finally either addto_runtime_actions(+1) + incoming_message_end (remote_dep_release_incoming of a PTG "
+               "taskpool with collectives) or addto_nb_tasks(+1) + incoming_message_end (the completion releases a task, no "
+               "flying-message action)")
 
 
 def replay(ctx, obj):
